@@ -40,7 +40,10 @@ RECURSIVE ApplyPrefix(_, _, _, _, _)
 ApplyPrefix(st, effs, n, k, r) ==
   IF n = 0 \/ effs = <<>> THEN st ELSE ApplyPrefix(Apply(st, Head(effs), k, r), Tail(effs), n - 1, k, r)
 
-\* ---- what a user can observe between invocations
+\* `out delete --all` removes tracking/ and run/: no pointer, no slots, no completed run
+OutDeleteAll(st, N) == Store0(N)
+
+\* ---- what a user can observe between invocations (and, for readers that take no lock, during one)
 ResultShows(st, N) == IF st.ptr \in 1..N /\ st.slot[st.ptr].stage = "result" THEN st.slot[st.ptr].run ELSE 0
 LogShowsDefault(st, N) == IF st.ptr \in 1..N /\ st.slot[st.ptr].stage \in {"logs", "result"} THEN st.slot[st.ptr].run ELSE 0
 
